@@ -32,6 +32,12 @@ LEVEL_TEXT += (
     "JaxDiscreteField computes value(u) op c, reflected ones c op "
     "value(u), for plain and field operands (polynomial / rational "
     "identity).")
+LEVEL_TEXT += (
+    " Added in the hunting round (defects found by independent agents "
+    "on the unchanged tree, DESIGN.md 9.4 / 9.6): "
+    "div of H(div) fields in both variants, completeness of the "
+    "operator set of the field wrapper, quotients stored into "
+    "like-buffers.")
 LEVEL_NOTE = (
     "Trusted: numpy/jax.numpy einsum, array literals and pointwise "
     "arithmetic follow their documented semantics; jax.linearize / jvp are "
